@@ -84,10 +84,22 @@ def run(ctx):
     ctx.check("flow:clean:id", ok_id, "the namespace tested is the namespace whose references are globbed and deleted",
               rules.where(rc), detail="tested=%s globbed=%s" % (sorted(map(str, roots)), sorted(map(str, glob_roots))), fn=rc)
     dl = False
+    ALLOWED = re.compile(r"IntoIterator::into_iter$|Iterator::(map|collect|copied|cloned)$|Try::branch$|ReadRepository::delegates$|"
+                         r"Deref::deref$|From::from$|Into::into$|::into_iter$|::iter$")
     for bb in ct_blocks:
-        e = show(peel_calls(expr_operand(rc, rc["blocks"][bb]["t"][2][0])))
-        dl = dl or ("ReadRepository::delegates(&*arg1)" in e)
-    ctx.check("flow:clean:delegates", dl, "the delegate set tested is self.delegates()", rules.where(rc), fn=rc)
+        ex = peel_calls(expr_operand(rc, rc["blocks"][bb]["t"][2][0]))
+        e = show(ex)
+        calls = [x for x in cfg.walk(ex) if x[0] == "call"]
+        only = all(ALLOWED.search(x[1].get("dn") or x[1].get("n") or "") for x in calls)
+        # the mapping closure only dereferences (`|did| *did`)
+        for x in cfg.walk(ex):
+            if x[0] == "agg" and isinstance(x[1], dict) and x[1].get("closure"):
+                for f in flow.closure_family(db, rc, x[1]["closure"]):
+                    for b2, t2, c2 in db.calls(f):
+                        if not re.search(r"Deref::deref$", c2.get("dn") or ""):
+                            only = False
+        dl = dl or ("ReadRepository::delegates(&*arg1)" in e and only)
+    ctx.check("flow:clean:delegates", dl, "the delegate set tested is exactly self.delegates() (collected without filtering)", rules.where(rc), fn=rc)
 
     # Storage::clean
     rems = rules.call_blocks(sc, REM)
